@@ -1,7 +1,7 @@
 (** C16 — token interface of the model for the correspondence check
     (same observations as harness/src/bin/c16.rs). *)
 From Coq Require Import List Arith ZArith NArith String Bool.
-From SV Require Import Common.Tok C16.Model.
+From SV Require Import Common.Tok C16.Model C16.DModel.
 Import ListNotations.
 Open Scope string_scope.
 Open Scope list_scope.
@@ -35,12 +35,39 @@ Definition dump (st : state) : list tok :=
     ++ footprint s.
 
 Inductive cmd := CmdOp (o : op) | CmdDump | CmdNop | CmdBad
-  | CmdPoolNew (mn mx : N) | CmdPool (o : pop).
+  | CmdPoolNew (mn mx : N) | CmdPool (o : pop) | CmdDrain (o : dop).
+
+Definition mk_scope (s c b : Z) : scope :=
+  if Z.eqb s 0 then SProxy else if Z.eqb s 1 then SCluster (zN c) else SBackend (zN c) (zN b).
+
+(** every gauge of the small universe the cases use (proxy, clusters 0-1, their backends 0-1, keys 0-1),
+    -1 when there is no entry, then the number of clamped underflows *)
+Definition drain_scopes : list scope :=
+  [SProxy; SCluster 0; SCluster 1; SBackend 0 0; SBackend 0 1; SBackend 1 0; SBackend 1 1]%N.
+Definition drain_toks (d : drain) : list tok :=
+  flat_map (fun sc => map (fun k => match lookup d sc k with Some v => tN v | None => TN (-1) end) [0; 1]%N) drain_scopes
+  ++ [tN (d_under d)].
 
 Definition parse (t : list tok) : cmd :=
   match t with
   | TS name :: args =>
-    if name =? "new" then
+    if name =? "m_recv" then
+      match args with
+      | [TN sc; TN c; TN b; TN k; TN kind; TN v] =>
+        CmdDrain (DRecv (mk_scope sc c b) (zN k) (if Z.eqb kind 0 then MGauge (zN v) else MAdd v))
+      | _ => CmdBad end
+    else if name =? "m_clear" then CmdDrain DClear
+    else if name =? "m_rmcluster" then
+      match args with [TN c] => CmdDrain (DRemoveCluster (zN c)) | _ => CmdBad end
+    else if name =? "m_addcluster" then
+      match args with [TN c] => CmdDrain (DAddCluster (zN c)) | _ => CmdBad end
+    else if name =? "m_rmbackend" then
+      match args with [TN c; TN b] => CmdDrain (DRemoveBackend (zN c) (zN b)) | _ => CmdBad end
+    else if name =? "m_detail" then
+      match args with [TN l] => CmdDrain (DDetail (zN l)) | _ => CmdBad end
+    else if name =? "m_enable" then
+      match args with [TN e] => CmdDrain (DEnable (Z.eqb e 1)) | _ => CmdBad end
+    else if name =? "new" then
       match args with [TN m; TN l] => CmdOp (ONew (zN m) (zN l)) | _ => CmdBad end
     else if name =? "accept" then
       match args with [TN t] => CmdOp (OAccept (zN t)) | _ => CmdBad end
@@ -91,27 +118,28 @@ Definition observe (st : state) (o : op) (st' : state) : list tok :=
 
 Definition pool_toks (p : pool) : list tok := [tN (p_used p); tN (p_cap p); tN (p_max p)].
 
-Definition step (sp : state * pool) (t : list tok) : (state * pool) * list tok :=
-  let '(st, pl) := sp in
+Definition step (spd : state * pool * drain) (t : list tok) : (state * pool * drain) * list tok :=
+  let '(st, pl, dr) := spd in
   match parse t with
-  | CmdOp o => let st' := apply_op st o in ((st', pl), if panicked st' then [TS "panic"] else observe st o st')
-  | CmdDump => (sp, dump st)
-  | CmdNop => (sp, [])
-  | CmdPoolNew mn mx => let pl' := pool_new mn mx in ((st, pl'), pool_toks pl')
+  | CmdOp o => let st' := apply_op st o in ((st', pl, dr), if panicked st' then [TS "panic"] else observe st o st')
+  | CmdDump => (spd, dump st)
+  | CmdNop => (spd, [])
+  | CmdPoolNew mn mx => let pl' := pool_new mn mx in ((st, pl', dr), pool_toks pl')
   | CmdPool o =>
     let pl' := pool_step pl o in
-    ((st, pl'),
+    ((st, pl', dr),
      match o with
      | PCheckout id => tn_bool (snd (pool_checkout pl id)) :: pool_toks pl'
      | PCheckin id => tn_bool (lmem id (p_held pl)) :: pool_toks pl'
      end)
-  | CmdBad => (sp, [TS "badop"])
+  | CmdDrain o => let dr' := dstep dr o in ((st, pl, dr'), drain_toks dr')
+  | CmdBad => (spd, [TS "badop"])
   end.
 
-Fixpoint run_from (sp : state * pool) (ops : list (list tok)) : list (list tok) :=
+Fixpoint run_from (spd : state * pool * drain) (ops : list (list tok)) : list (list tok) :=
   match ops with
   | [] => []
-  | op :: ops' => let '(sp', o) := step sp op in o :: run_from sp' ops'
+  | op :: ops' => let '(spd', o) := step spd op in o :: run_from spd' ops'
   end.
 
-Definition run_case (ops : list (list tok)) : list (list tok) := run_from (init, pool_new 0 0) ops.
+Definition run_case (ops : list (list tok)) : list (list tok) := run_from (init, pool_new 0 0, drain_init) ops.
